@@ -34,23 +34,46 @@ def _pushed(row, out):
 def common_mutator(row, out, allow_panic=False):
     """Frame conditions shared by every mutator-side primitive (barriers, trace, upgrade, ...)."""
     probs = []
+    early = early_destructs(row, out)
     if not allow_panic and out.panics():
         probs.append("panics: %s" % (out.panics(),))
     if out.kind not in ("return",) and not allow_panic:
-        probs.append("exit kind %s" % out.kind)
+        # unwinding out of a user destructor that an early destruct invoked is part of the same timing problem
+        probs.append("%sexit kind %s" % ("[timing] " if early and not out.panics() else "", out.kind))
     for name in ("dropped", "freed", "use_after_free", "double_drop", "double_free", "trace_value", "user_trace",
                  "unreachable_reached"):
         if out.has(name):
-            probs.append("event %s in a mutator-side primitive" % name)
+            only_early = name == "dropped" and all(e[1] in early for e in out.events("dropped"))
+            probs.append("%sevent %s in a mutator-side primitive" % ("[timing] " if only_early else "", name))
     d = diff(row, out)
     for k in d:
         if k[0] == "ctx" and k[1] in ("phase", "all", "sweep", "sweep_prev"):
             probs.append("changed context field %s: %s -> %s" % (k[1], d[k][0], d[k][1]))
         if k[0] == "obj" and k[2] in ("live", "nt", "next", "dropped", "freed"):
-            probs.append("changed object %s field %s: %s -> %s" % (k[1], k[2], d[k][0], d[k][1]))
+            tag = "[timing] " if (k[1] in early and k[2] in ("live", "dropped")) else ""
+            probs.append("%schanged object %s field %s: %s -> %s" % (tag, k[1], k[2], d[k][0], d[k][1]))
     probs += gray_queue_consistency(row, out)
     probs += credit_consistency(row, out)
     return probs
+
+
+def early_destructs(row, out):
+    """Objects whose value this run destructed *consistently* while they were already condemned: the sweep
+    is running, the object is White/WhiteWeak (the finished marking proved it not strongly reachable), it
+    was live, and afterwards it is flagged not-live, destructed once, block kept. That is work the sweep
+    would have done anyway: it breaks the *timing* clause of C03 (destructors only inside collection
+    methods), not reachability-safety, exactly-once, or weak-pointer truthfulness."""
+    ids = set()
+    if row.init.get("phase") != "Sweep":
+        return ids
+    for i, o in row.init["objs"].items():
+        p = out.post["objs"].get(i)
+        if p is None:
+            continue
+        if o["colour"] in WHITE and o["live"] == 1 and not o.get("dropped") and p["live"] == 0 \
+                and p.get("dropped") == 1 and (p.get("freed") or 0) == (o.get("freed") or 0):
+            ids.add(i)
+    return ids
 
 
 def gray_queue_consistency(row, out):
@@ -181,9 +204,12 @@ def spec_upgrade(row):
     want = 1 if (pre["live"] == 1 and not (pre["phase"] == "Sweep" and pre["colour"] == "WW")) else 0
     for out in row.outs:
         probs += common_mutator(row, out)
-        if diff(row, out):
-            probs.append("upgrade changed collector state: %s" % (diff(row, out),))
-        if out.ret != want:
+        dd = diff(row, out)
+        if dd:
+            early = early_destructs(row, out)
+            timing = all(k[0] == "obj" and k[1] in early and k[2] in ("live", "dropped") for k in dd)
+            probs.append("%supgrade changed collector state: %s" % ("[timing] " if timing else "", dd))
+        if out.kind == "return" and out.ret != want:
             probs.append("returned %s, specification says %s" % (out.ret, want))
     return probs
 
@@ -562,8 +588,13 @@ def spec_weak_upgrade(row):
     ok = pre["live"] == 1 and not (pre["phase"] == "Sweep" and pre["colour"] == "WW")
     for out in row.outs:
         probs += common_mutator(row, out)
-        if diff(row, out):
-            probs.append("upgrade changed collector state")
+        dd = diff(row, out)
+        if dd:
+            early = early_destructs(row, out)
+            timing = all(k[0] == "obj" and k[1] in early and k[2] in ("live", "dropped") for k in dd)
+            probs.append("%supgrade changed collector state" % ("[timing] " if timing else ""))
+        if out.kind != "return":
+            continue
         if ok and out.ret != ("Some", ("obj", 1)):
             probs.append("returned %s for an upgradable target (must be Some(target))" % (out.ret,))
         if not ok and out.ret != "None":
